@@ -259,7 +259,8 @@ impl Report {
     /// Writes evidence + replay files, prints verdict lines, returns the process exit code.
     pub fn finish(self) -> i32 {
         let known = load_known();
-        let _ = std::fs::create_dir_all(format!("{VERIF}/evidence"));
+        let evdir = std::env::var("VERIF_EVIDENCE_DIR").unwrap_or(format!("{VERIF}/evidence"));
+        let _ = std::fs::create_dir_all(&evdir);
         let _ = std::fs::create_dir_all(format!("{VERIF}/replays"));
         let mut kf_lines = vec![];
         for f in known.findings.iter().filter(|f| f.property == self.prop) {
@@ -308,9 +309,9 @@ impl Report {
             "subject_digest": std::env::var("VERIF_SUBJECT_DIGEST").unwrap_or_default(),
             "machinery_errors": self.machinery_errors,
         });
-        let tmp = format!("{VERIF}/evidence/{}.json.tmp", self.prop);
+        let tmp = format!("{evdir}/{}.json.tmp", self.prop);
         std::fs::write(&tmp, serde_json::to_string_pretty(&ev).unwrap()).unwrap();
-        std::fs::rename(&tmp, format!("{VERIF}/evidence/{}.json", self.prop)).unwrap();
+        std::fs::rename(&tmp, format!("{evdir}/{}.json", self.prop)).unwrap();
         for l in &kf_lines {
             println!("{l}");
         }
